@@ -24,15 +24,26 @@ with an oracle that does not look at how pyglove builds the string:
   attribute-name skeleton.
 * presence -- every key and every leaf of the rendered tree (as selected by
   the documented meaning of include_keys / exclude_keys / hide_frozen /
-  hide_default_values) is found in the text outside of tooltips.
+  hide_default_values) is found in the text outside of tooltips; numbers,
+  bools, None and int keys / sequence positions have to occur as a token of
+  their own (`0.0` inside `-0.0` or `1` inside `1.0` is another value).
+* leaf identity -- look-alike leaves (equal across types such as 1 / True /
+  1.0, 0.0 / -0.0, 10**20 / 1e20, user objects with a permissive __eq__; texts
+  contained in one another) are each shown as themselves, side by side in one
+  value and in consecutive renderings (no dependence on what was rendered
+  before).
 * the value is unchanged by rendering (structural snapshot incl. parents/paths,
   and pg.eq with a clone taken before).
 
-Drivers: drv_positions, drv_option_pairs, drv_controls, drv_scoping.
+Drivers: drv_positions, drv_option_pairs, drv_controls, drv_scoping,
+drv_leaf_identity.
 """
 import html as _html
 import html.entities as _entities
+import os
 import re
+import subprocess
+import sys
 import threading
 from html.parser import HTMLParser
 
@@ -905,14 +916,14 @@ Ob = pg.members([(pg.typing.StrKey(), pg.typing.Any())])(type('Ob', (pg.Object,)
 
 # slots: K0..K2 keys, V0..V8 values (V1 long).
 ROOTS = {
-    'dict': "{@K0@: @V0@, @K1@: @V1@, 'num': 7919, 'flt': 3.25, 'flag': True, 'none': None, "
-            "'lst': [@V2@, 104729, {@K2@: @V3@, 'deep': [@V4@]}, (@V5@, 65537)], "
+    'dict': "{@K0@: @V0@, @K1@: @V1@, 'num': 7919, 'flt': 3.25, 'flag': True, 'unit': 1.0, 'none': None, "
+            "'off': False, 'zero': 0.0, 'lst': [@V2@, 104729, {@K2@: @V3@, 'deep': [@V4@]}, (@V5@, 65537)], "
             "'obj': In(@V6@), 'ref': pg.Ref(In(@V7@, 6)), 'plk': Pl(@V8@), 'e1': {}, 'e2': []}",
-    'pg.Dict': "pg.Dict({@K0@: @V0@, @K1@: @V1@, 'num': 7919, 'flt': 3.25, 'flag': True, 'none': None, "
-               "'lst': [@V2@, 104729, {@K2@: @V3@, 'deep': [@V4@]}], "
+    'pg.Dict': "pg.Dict({@K0@: @V0@, @K1@: @V1@, 'num': 7919, 'flt': 3.25, 'flag': True, 'unit': 1.0, 'none': None, "
+               "'off': False, 'zero': -0.0, 'lst': [@V2@, 104729, {@K2@: @V3@, 'deep': [@V4@]}], "
                "'obj': In(@V6@), 'ref': pg.Ref(In(@V7@, 6)), 'plk': Pl(@V8@), 'e1': {}, 'e2': []})",
     'list': "[@V0@, @V1@, {@K0@: 7919, @K1@: [@V2@], 'flt': 3.25}, In(@V6@), None, (@V5@, 65537), Pl(@V8@)]",
-    'pg.Object': "Ob(num=7919, lst=[@V2@, {@K2@: @V3@}], obj=In(@V6@, 8), none=None, flt=3.25, "
+    'pg.Object': "Ob(num=7919, lst=[@V2@, {@K2@: @V3@}], obj=In(@V6@, 8), none=None, flt=3.25, one=1, unit=1.0, "
                  "**{@K0@: @V0@, @K1@: @V1@})",
 }
 
@@ -1629,6 +1640,21 @@ def _leaf_texts(value, kind):
   return [repr(value)]
 
 
+def _fails_fresh(code, timeout=120):
+  """The snippet fails (non-zero exit) in a fresh interpreter with the same import path."""
+  try:
+    p = subprocess.run([sys.executable, '-c', code], env=dict(os.environ), timeout=timeout,
+                       stdout=subprocess.DEVNULL, stderr=subprocess.DEVNULL, check=False)
+    return p.returncode != 0
+  except Exception:  # pylint: disable=broad-except
+    return False
+
+
+_W_DRIVER = ("import sys; sys.path[:0] = ['/verif']\nimport bounded.c20_html as m\n"
+             "r = m.drv_leaf_identity(%r, %r)   # fails only after the renderings the driver made before\n"
+             "bad = [f['message'] for f in r['failures'] if f['case_id'] == %r]\nassert not bad, bad")
+
+
 def _lookalike(va, vb, ta, tb):
   """Equal (or equal hash) values, or the text of one is part of the other's."""
   try:
@@ -1654,7 +1680,7 @@ def drv_leaf_identity(tier, seed):
     v = eval(vsrc, dict(ns))  # pylint: disable=eval-used
     return pg.to_html_str(v, **opts)
 
-  def judge(cid, key, stmts, s, leaves):
+  def judge(cid, key, stmts, s, leaves, hist=''):
     """leaves: [(src, acceptable texts)].  Records presence + well-formedness."""
     doc = parse_html(s)
     _record(rec, 'leaf-identity/wellformed', key, not doc.errors,
@@ -1664,10 +1690,21 @@ def drv_leaf_identity(tier, seed):
       ok = any(has_token(tok, t) for t in texts)
       shown = [x for x in tok.split('\x1f') if x.strip()]
       tname = type(eval(src, dict(ns))).__name__  # pylint: disable=eval-used
-      _record(rec, '%s:%s-leaf' % (cid, tname), key, ok,
+      full = '%s:%s-leaf' % (cid, tname)
+
+      def witness(texts=texts, full=full):
+        # What this process rendered before may matter: keep the first
+        # candidate that fails in a fresh interpreter.
+        tail = 'import html, re\n' + _W_TOKENS % (texts,)
+        for body in (stmts, hist + stmts):
+          w = _leaf_head(body) + body + tail
+          if len(w) <= 1200 and _fails_fresh(w):
+            return w
+        return _W_DRIVER % (tier, seed, full)
+
+      _record(rec, full, key, ok,
               'leaf %s (text %s) is not shown as a token of its own; texts shown: %r'
-              % (src, ' or '.join(map(repr, texts)), shown[:12]),
-              lambda texts=texts: _leaf_head(stmts) + stmts + 'import html, re\n' + _W_TOKENS % (texts,))
+              % (src, ' or '.join(map(repr, texts)), shown[:12]), witness)
 
   def opts_src(opts):
     return ''.join(', %s=%r' % kv for kv in opts.items())
@@ -1685,6 +1722,7 @@ def drv_leaf_identity(tier, seed):
         if not _lookalike(va, vb, ta, tb):
           continue
         cid_pair = gname
+        members_src = '[%s]' % ', '.join(m_[0] for m_ in members)
         for pos, both, single in LEAF_POSITIONS:
           n += 1
           if tier == 'quick':
@@ -1696,6 +1734,8 @@ def drv_leaf_identity(tier, seed):
           else:
             osets = LEAF_OPTSETS
           for oname, opts in osets:
+            hist = 'for x in %s:\n  pg.to_html_str(%s%s)\n' % (
+                members_src, (single or '[{A}]').format(A='x'), opts_src(opts))
             if both is not None:
               vsrc = both.format(A=sa, B=sb)
               stmts = 'v = %s\ns = pg.to_html_str(v%s)\n' % (vsrc, opts_src(opts))
@@ -1706,7 +1746,7 @@ def drv_leaf_identity(tier, seed):
                         repr(e), _leaf_head(stmts) + stmts)
               else:
                 judge('leaf-identity.side-by-side/%s' % cid_pair, (pos, sa, sb, oname), stmts, s,
-                      [(sa, ta), (sb, tb)])
+                      [(sa, ta), (sb, tb)], hist)
             if single is not None:
               v1, v2 = single.format(A=sa), single.format(A=sb)
               stmts = ('pg.to_html_str(%s%s)\nv = %s\ns = pg.to_html_str(v%s)\n'
@@ -1719,7 +1759,7 @@ def drv_leaf_identity(tier, seed):
                         repr(e), _leaf_head(stmts) + stmts)
               else:
                 judge('leaf-identity.consecutive-renderings/%s' % cid_pair, (pos, sa, sb, oname),
-                      stmts, s, [(sb, tb)])
+                      stmts, s, [(sb, tb)], hist)
 
   # Typed fields: defaults / given values that are look-alikes of each other.
   for vsrc, leaves in [
@@ -1744,7 +1784,7 @@ def drv_leaf_identity(tier, seed):
 _W_TOKENS = ("t = html.unescape(re.sub(r'<[^>]*>', '\\x1f', "
              "re.sub(r'<span class=\"tooltip[^\"]*\"[^>]*>[^<]*</span>', '', s)))\n"
              "assert any(re.search(r'(?<![\\w.+\\-])' + re.escape(x) + r'(?![\\w.])', t) for x in %r), "
-             "[x for x in t.split('\\x1f') if x.strip()]")
+             "[x for x in t.split('\\x1f') if x.strip()][-12:]")
 
 _W_THREADS = '''import pyglove as pg, threading
 v = pg.Dict(a='x', b=[1])
